@@ -32,6 +32,7 @@ CONSTANTS
   MaxDepth = %(maxdepth)d
   PairDepth = %(pairdepth)d
   DstForms = {%(forms)s}
+  HostSystems = {%(hosts)s}
   ForceTrailingSep = %(fts)s
   NormBeforeCheck = %(nbc)s
   EmitCases = %(emit)s
@@ -42,8 +43,9 @@ CHECK_DEADLOCK FALSE
 ALLFORMS = ["abs", "trail", "rel", "reldot", "dotdot"]
 
 
-def cfg(maxdepth, pairdepth, forms, fts=True, nbc=True, emit=True, extra=""):
+def cfg(maxdepth, pairdepth, forms, fts=True, nbc=True, emit=True, extra="", hosts=(3,)):
     return CFG % dict(maxdepth=maxdepth, pairdepth=pairdepth, forms=", ".join('"%s"' % f for f in forms),
+                      hosts=", ".join(str(h) for h in hosts),
                       fts=str(fts).upper(), nbc=str(nbc).upper(), emit=str(emit).upper(), extra=extra)
 
 
@@ -96,6 +98,7 @@ def run_case(case, root, extractall):
                 name = member_name(m, root)
                 zi = zipfile.ZipInfo(name)
                 zi.filename = name          # keep the hostile spelling exactly
+                zi.create_system = case.get("host", 3)     # header byte: 0 = made on DOS/Windows, 3 = Unix
                 if m["dir"]:
                     zi.external_attr = 0o40775 << 16
                     zf.writestr(zi, b"")
@@ -170,8 +173,9 @@ def _worker(args):
 
 def key_of(r):
     c = r["case"]
-    return "extractall form=%s members=%s problems=%s" % (
-        c["form"], json.dumps([[m["root"], m["comps"], m["dir"]] for m in c["members"]]),
+    return "extractall form=%s%s members=%s problems=%s" % (
+        c["form"], "" if c.get("host", 3) == 3 else " host=%s" % c["host"],
+        json.dumps([[m["root"], m["comps"], m["dir"]] for m in c["members"]]),
         ";".join(p.split(":")[0].split(" (")[0] for p in r["problems"]))
 
 
@@ -190,12 +194,13 @@ def execute(ctx, cases):
 
 def run(ctx):
     quick = ctx.tier == "quick"
-    plans = ([(3, 1, ALLFORMS), (4, 0, ["abs"])] if quick
-             else [(4, 2, ALLFORMS), (5, 0, ["abs", "rel"])])
+    # (MaxDepth, PairDepth, destination spellings, host-system bytes of the archive header)
+    plans = ([(3, 1, ALLFORMS, (3,)), (4, 0, ["abs"], (3,)), (2, 1, ["abs", "rel"], (0,))] if quick
+             else [(4, 2, ALLFORMS, (3,)), (5, 0, ["abs", "rel"], (3,)), (3, 2, ["abs", "rel"], (0,))])
     total_states = total_trans = 0
     cases = {}
-    for (md, pd, forms) in plans:
-        res = tlc.run(ctx, "ZipExtract", cfg(md, pd, forms), name="ZipExtract_%d_%d" % (md, pd),
+    for (md, pd, forms, hosts) in plans:
+        res = tlc.run(ctx, "ZipExtract", cfg(md, pd, forms, hosts=hosts), name="ZipExtract_%d_%d_%d" % (md, pd, hosts[0]),
                       coverage=False, timeout=1800, heap="12g")
         if not res.ok:
             ctx.machinery("reference spec ZipExtract violates %s %s — a defect of the specification\n%s"
@@ -203,7 +208,7 @@ def run(ctx):
         total_states += res.distinct
         total_trans += res.generated
         for c in res.emitted:
-            k = json.dumps([c["form"], c["members"]], sort_keys=True)
+            k = json.dumps([c["form"], c["host"], c["members"]], sort_keys=True)
             cases[k] = c
     # liveness + coverage on a small instance
     res = tlc.run(ctx, "ZipExtract", cfg(2, 1, ["abs", "rel"], emit=False, extra="PROPERTY Terminates"),
@@ -236,11 +241,12 @@ def run(ctx):
                   exhaustive=True, by_predicted_status=status_count, nonvacuity=nonvac,
                   action_coverage=res.coverage,
                   rule="every terminal state of ZipExtract.tla (all member names over 8 components x 3 roots x file/dir to the "
-                       "depth bound, plans %r as (MaxDepth, PairDepth, destination spellings)) executed against the real extractall; "
+                       "depth bound, plans %r as (MaxDepth, PairDepth, destination spellings, header host-system bytes)) executed against the real extractall; "
                        "non-trivial = rejected, or containing '..', '.', '', the sibling name, or an absolute name" % (plans,))
     for c in caselist[:: max(1, len(caselist) // 4)][:4]:
         ctx.sample({"dst": dst_spelling(c["dst"], "<scratch>"), "members": [member_name(m, "<scratch>") for m in c["members"]],
                     "predicted": c["status"], "fs": c["fs"]})
+    ctx.set_cover(by_header_host_system={str(h): sum(1 for c in caselist if c["host"] == h) for h in (0, 3)})
     ctx.assume("os.walk listing of the scratch tree is complete ground truth for created paths",
                "Linux path semantics ('\\' is an ordinary character)",
                "Python zipfile preserves hostile member names when ZipInfo.filename is set explicitly")
